@@ -159,4 +159,19 @@ def tmoVerdict (evs : List Ev) : Option String :=
   | .ok _ => none
   | .error e => some e
 
+/-- The oracle the checks run (`tmoStep` with one correction, found by the proof — `Ivy.Props.C07tmo.day_cap_rejected`): a millisecond wait at the
+24 h cap of `to_msec` is not a sleep whose timeout running out owes a callback — the earliest timer may be further
+away than the cap.  It is treated like an unbounded wait. -/
+def tmoStepC (m : TmoSt) (e : Ev) : Except String TmoSt :=
+  match e with
+  | .out (.wait _ (.ms v) ..) =>
+    if m.owed then .error "timed-out wake-up without progress: the wait returned on its timeout, nothing was dispatched, and the loop waits again"
+    else .ok { m with sleep := decide (v > 0) && decide (v < 86400000), zero := decide (v = 0) }
+  | e => tmoStep m e
+
+def tmoCapVerdict (evs : List Ev) : Option String :=
+  match runMon tmoStepC {} evs with
+  | .ok _ => none
+  | .error e => some e
+
 end Ivy.Mon.C07
